@@ -70,6 +70,8 @@ type mCtx struct {
 	// Its watcher goroutine may or may not have exited; if it is still there it kills this
 	// context whenever it sees errors in the parent. The statement does not fix that.
 	orphan bool
+	// bare: built from the parent's bare context object (see Op.Bare)
+	bare bool
 	// fresh: became done through its watcher during the current step; the executor waits
 	// for Done and then reads whether the watcher killed or stopped it.
 	fresh bool
@@ -101,12 +103,12 @@ func (m *model) on(s, ev int, fail bool) int {
 	return id
 }
 
-func (m *model) child(p int, iso bool) int {
+func (m *model) child(p int, iso bool, bare ...bool) int {
 	s := len(m.sc)
 	c := m.sc[p].ctx
 	if iso {
 		c = len(m.cx)
-		m.cx = append(m.cx, mCtx{parent: m.sc[p].ctx})
+		m.cx = append(m.cx, mCtx{parent: m.sc[p].ctx, bare: len(bare) > 0 && bare[0]})
 		m.cx[m.sc[p].ctx].kids = append(m.cx[m.sc[p].ctx].kids, c)
 	}
 	m.sc = append(m.sc, mScope{parent: p, depth: m.sc[p].depth + 1, ctx: c, iso: iso})
@@ -272,6 +274,11 @@ type Op struct {
 	Ev      int    `json:"ev,omitempty"`
 	Fail    bool   `json:"fail,omitempty"`
 	Iso     bool   `json:"iso,omitempty"`
+	// Bare (with Iso): the isolated context is built the way production code below an
+	// isolated scope does it, from the parent's BARE context object
+	// (contextscope.NewIsolated(parent.BaseContextScope())); otherwise from the parent scope
+	// itself (as termc does). Below an isolated parent the bare context is an *Isolated.
+	Bare    bool   `json:"bare,omitempty"`
 	N       int    `json:"n,omitempty"`
 	ProbeUs int    `json:"probe_us,omitempty"`
 	Sub     []Op   `json:"sub,omitempty"`
@@ -383,7 +390,7 @@ func (m *model) applyGuess(op Op) {
 	case "on":
 		m.on(op.S, op.Ev, op.Fail)
 	case "child":
-		m.child(op.S, op.Iso)
+		m.child(op.S, op.Iso, op.Bare)
 	case "add":
 		if !m.cx[m.sc[op.S].ctx].done {
 			m.sc[op.S].tasks += op.N
@@ -413,4 +420,14 @@ func (m *model) applyGuess(op Op) {
 	}
 	m.guessCascade()
 	m.guessSettle()
+}
+
+// hasLiveIsoKid: context c has an isolated child context that is not done yet.
+func (m *model) hasLiveIsoKid(c int) bool {
+	for _, k := range m.cx[c].kids {
+		if !m.cx[k].done {
+			return true
+		}
+	}
+	return false
 }
